@@ -359,6 +359,21 @@ def nan_report(coords, pf):
     return {"non_finite_predictions": int(bad.size), "at_data_points": bad.tolist(), "all_on_convex_hull": on_hull}
 
 
+def scipy_direct_nan(expr, coords, data):
+    """positions where SciPy's own interpolator (built directly here, without verde) returns a non-finite value at the
+    data points: verde's Linear/Cubic are documented to return what SciPy returns"""
+    from scipy.interpolate import LinearNDInterpolator, CloughTocher2DInterpolator
+    pts = np.column_stack([np.ravel(coords[0]), np.ravel(coords[1])])
+    cls = LinearNDInterpolator if "Linear" in expr else CloughTocher2DInterpolator
+    try:
+        with warnings.catch_warnings():
+            warnings.simplefilter("ignore")
+            v = cls(pts, np.ravel(data), rescale=("rescale=True" in expr))(pts)
+        return np.flatnonzero(~np.isfinite(np.ravel(v))).tolist()
+    except Exception:
+        return None
+
+
 def scipy_case(rnd, i):
     n = rnd.randint(4, 30)
     e, nn, scale, layout = cloud(rnd, n, collinear_ok=False)
@@ -376,7 +391,10 @@ def scipy_case(rnd, i):
         return Case(inp, {"raised": type(exc).__name__}, "Vskip", repro, kind.lower() + "/skip-qhull-error", nontrivial=False)
     pf = flat(pred)
     if not np.all(np.isfinite(pf)):
-        return Case(inp, nan_report(coords, pf), "Vviol", repro, kind.lower() + "/nan-at-data-point")
+        rep = nan_report(coords, pf)
+        rep["scipy_direct_non_finite_at"] = scipy_direct_nan(expr, coords, data)
+        rep["same_as_scipy_direct"] = rep["scipy_direct_non_finite_at"] == rep["at_data_points"]
+        return Case(inp, rep, "Vviol", repro, kind.lower() + "/nan-at-data-point")
     term = "c01_passthrough %s %s" % (dl(data), dl(pf))
     return Case(inp, {"max_abs_misfit": float(np.max(np.abs(pf - flat(data))))}, term, repro,
                 kind.lower() + ("-prefit" if prefit is not None else ""), nontrivial=True)
@@ -488,8 +506,11 @@ def composite_case(rnd, i):
     if needs_tri:
         pf = triangulation_nan(coords)
         if pf is not None:      # this cloud exhibits the known scipy finding: report it as such, not through the composite
+            rep = nan_report(coords, pf)
+            rep["scipy_direct_non_finite_at"] = scipy_direct_nan("vd.Linear(rescale=False)", coords, np.arange(np.size(coords[0]), dtype=float))
+            rep["same_as_scipy_direct"] = rep["scipy_direct_non_finite_at"] == rep["at_data_points"]
             return Case({"estimator": "vd.Linear(rescale=False)", "coordinates": tolist(coords), "layout": layout},
-                        nan_report(coords, pf), "Vviol", repro, "linear/nan-at-data-point")
+                        rep, "Vviol", repro, "linear/nan-at-data-point")
     try:
         est, pred = run(expr, coords, data, prefit)
     except Exception as exc:
@@ -657,7 +678,10 @@ def thin_cases():
             est, pred = run(expr, (e, nn), data)
             pf = flat(pred)
             if not np.all(np.isfinite(pf)):
-                cases.append(Case(inp, nan_report((e, nn), pf), "Vviol", repro,
+                rep = nan_report((e, nn), pf)
+                rep["scipy_direct_non_finite_at"] = scipy_direct_nan(expr, (e, nn), data)
+                rep["same_as_scipy_direct"] = rep["scipy_direct_non_finite_at"] == rep["at_data_points"]
+                cases.append(Case(inp, rep, "Vviol", repro,
                                   "%s/%s/nan-at-data-point" % (THIN_STREAM, kind.lower())))
             else:
                 cases.append(Case(inp, {"max_abs_misfit": float(np.max(np.abs(pf - data)))},
@@ -666,12 +690,15 @@ def thin_cases():
 
 
 def finding_key(case):
-    # only the narrow signature of the reported scipy behaviour: exactly ONE data point, on the boundary of the convex hull (a vertex or on an edge),
+    # only the narrow signature of the reported scipy behaviour: data points ON THE BOUNDARY of the convex hull (vertex or edge point; border nodes
+    # of a rotated grid can be several) where SciPy's own interpolator, built directly by the harness, is non-finite at exactly the same positions - or exactly ONE such point,
     # predicted NaN by a plain Linear/Cubic (it also happens, rarely, with rescale=True and ordinary scatters: see the
     # 16-point witness in the report); anything broader (several NaNs, interior points, composites) stays a violation
     if case.kind in ("linear/nan-at-data-point", "cubic/nan-at-data-point", THIN_STREAM + "/linear/nan-at-data-point",
                      THIN_STREAM + "/cubic/nan-at-data-point") \
-            and isinstance(case.out, dict) and case.out.get("non_finite_predictions") == 1 and case.out.get("all_on_convex_hull") is True:
+            and isinstance(case.out, dict) and case.out.get("all_on_convex_hull") is True \
+            and (case.out.get("non_finite_predictions") == 1 or
+                 (case.out.get("non_finite_predictions", 0) >= 1 and case.out.get("same_as_scipy_direct") is True)):
         return "C01-scipy-find_simplex-misses-hull-vertex"
     return None
 
